@@ -763,3 +763,150 @@ Proof.
   destruct (reduced_unique _ _ _ _ Pa Pb Ga Gb E) as [En Ed].
   destruct a, b; simpl in *; try discriminate; subst; reflexivity.
 Qed.
+
+(* ------------------------------------------------------------------ integer division family *)
+Definition is_integer (v : num) : Prop := match v with IntV _ | BigNum _ => True | _ => False end.
+
+Lemma int_of_integer v : is_integer v -> int_of v = Some (numer v).
+Proof. destruct v; simpl; intros H; try contradiction; reflexivity. Qed.
+
+Lemma quot_abs_le a b : b <> 0 -> Z.abs (Z.quot a b) <= Z.abs a.
+Proof.
+  intros Hb. rewrite <- Z.quot_abs by auto.
+  destruct (Z.eq_dec a 0) as [->|Ha]; [rewrite Z.quot_0_l by lia; simpl; lia|].
+  apply Z.quot_le_upper_bound; try lia; nia.
+Qed.
+
+Lemma int_div_op_spec f site a b :
+  (forall l r, r <> 0 -> fits_isize l = true -> fits_isize r = true ->
+               ~ (l = isize_min /\ r = -1) -> fits_isize (f l r) = true) ->
+  canonical a -> canonical b -> is_integer a -> is_integer b ->
+  if numer b =? 0 then int_div_op f site a b = ErrDivZero
+  else exists v, int_div_op f site a b = Ok v /\ canonical v /\ is_integer v /\
+                 numer v = f (numer a) (numer b).
+Proof.
+  intros Hf Ca Cb Ia Ib.
+  assert (G : forall z, canonical (of_bigint z) /\ is_integer (of_bigint z) /\ numer (of_bigint z) = z).
+  { intros z. destruct (of_bigint_spec z) as [C [N _]]. repeat split; auto.
+    unfold of_bigint. destruct (fits_isize z); exact I. }
+  destruct a as [l|l|?|?], b as [r|r|?|?]; simpl in Ia, Ib; try contradiction;
+    cbn [int_div_op int_of numer].
+  - (* Int / Int *)
+    destruct (r =? 0) eqn:E0; [reflexivity|]. apply Z.eqb_neq in E0.
+    destruct ((l =? isize_min) && (r =? -1)) eqn:E1.
+    + exists (of_bigint (f l r)). split; [reflexivity | apply G].
+    + assert (H : ~ (l = isize_min /\ r = -1)).
+      { intros [-> ->]. rewrite !Z.eqb_refl in E1. discriminate. }
+      unfold chk_isize. rewrite (Hf l r E0 Ca Cb H).
+      exists (IntV (f l r)). split; [reflexivity|]. split; [simpl; apply Hf; auto|]. split; [exact I | reflexivity].
+  - destruct (r =? 0) eqn:E0; [reflexivity|]. exists (of_bigint (f l r)). split; [reflexivity | apply G].
+  - destruct (r =? 0) eqn:E0; [reflexivity|]. exists (of_bigint (f l r)). split; [reflexivity | apply G].
+  - destruct (r =? 0) eqn:E0; [reflexivity|]. exists (of_bigint (f l r)). split; [reflexivity | apply G].
+Qed.
+
+Lemma fits_quot l r : r <> 0 -> fits_isize l = true -> fits_isize r = true ->
+  ~ (l = isize_min /\ r = -1) -> fits_isize (Z.quot l r) = true.
+Proof.
+  intros Hr Fl Fr Hn. apply fits_isize_spec in Fl, Fr. apply fits_isize_spec.
+  pose proof (quot_abs_le l r Hr) as H.
+  destruct (Z.eq_dec l isize_min) as [El|El].
+  - (* |l| = 2^63: the quotient reaches 2^63 only for r = -1 *)
+    subst l. assert (r <> -1) by tauto.
+    destruct (Z.eq_dec r 1) as [->|R1]; [rewrite Z.quot_1_r; unfold isize_min, isize_max; lia|].
+    assert (2 <= Z.abs r) by lia.
+    assert (Z.abs (Z.quot isize_min r) <= 4611686018427387904).
+    { rewrite <- Z.quot_abs by auto. apply Z.quot_le_upper_bound; try lia.
+      unfold isize_min. change (Z.abs (-9223372036854775808)) with 9223372036854775808. lia. }
+    unfold isize_min, isize_max in *. lia.
+  - unfold isize_min, isize_max in *. lia.
+Qed.
+
+Lemma fits_rem l r : r <> 0 -> fits_isize l = true -> fits_isize r = true ->
+  ~ (l = isize_min /\ r = -1) -> fits_isize (Z.rem l r) = true.
+Proof.
+  intros Hr Fl Fr _. apply fits_isize_spec in Fl, Fr. apply fits_isize_spec.
+  pose proof (Z.rem_bound_abs l r Hr). unfold isize_min, isize_max in *. lia.
+Qed.
+
+Lemma fits_mod l r : r <> 0 -> fits_isize l = true -> fits_isize r = true ->
+  ~ (l = isize_min /\ r = -1) -> fits_isize (Z.modulo l r) = true.
+Proof.
+  intros Hr Fl Fr _. apply fits_isize_spec in Fl, Fr. apply fits_isize_spec.
+  destruct (Z_lt_le_dec 0 r).
+  - pose proof (Z.mod_pos_bound l r). unfold isize_min, isize_max in *. lia.
+  - pose proof (Z.mod_neg_bound l r). unfold isize_min, isize_max in *. lia.
+Qed.
+
+Lemma quotient_spec a b : canonical a -> canonical b -> is_integer a -> is_integer b ->
+  if numer b =? 0 then quotient a b = ErrDivZero
+  else exists v, quotient a b = Ok v /\ canonical v /\ is_integer v /\ numer v = Z.quot (numer a) (numer b).
+Proof. apply int_div_op_spec. apply fits_quot. Qed.
+Lemma remainder_spec a b : canonical a -> canonical b -> is_integer a -> is_integer b ->
+  if numer b =? 0 then remainder a b = ErrDivZero
+  else exists v, remainder a b = Ok v /\ canonical v /\ is_integer v /\ numer v = Z.rem (numer a) (numer b).
+Proof. apply int_div_op_spec. apply fits_rem. Qed.
+Lemma modulo_spec a b : canonical a -> canonical b -> is_integer a -> is_integer b ->
+  if numer b =? 0 then modulo a b = ErrDivZero
+  else exists v, modulo a b = Ok v /\ canonical v /\ is_integer v /\ numer v = Z.modulo (numer a) (numer b).
+Proof. apply int_div_op_spec. apply fits_mod. Qed.
+
+Lemma abs_integer a : canonical a -> is_integer a ->
+  exists v, abs a = Ok v /\ canonical v /\ is_integer v /\ numer v = Z.abs (numer a).
+Proof.
+  intros Ca Ia. destruct (abs_exact a Ca) as [v [E [C X]]].
+  destruct a as [z|z|?|?]; simpl in Ia; try contradiction; cbn [abs] in *.
+  - unfold chk_isize in *. destruct (fits_isize (Z.abs z)) eqn:F.
+    + inversion E; subst. exists (IntV (Z.abs z)). repeat split; auto.
+    + inversion E; subst. eexists. split; eauto. destruct (of_bigint_spec (Z.abs z)) as [C' [N D]].
+      repeat split; auto. unfold of_bigint. rewrite F. exact I.
+  - inversion E; subst. eexists. split; eauto. destruct (of_bigint_spec (Z.abs z)) as [C' [N D]].
+    repeat split; auto. unfold of_bigint. destruct (fits_isize (Z.abs z)); exact I.
+Qed.
+
+(* Euclid's algorithm as the library writes it computes the mathematical gcd, for operands of any size *)
+Lemma gcd_loop_zero f a b : int_of b = Some 0 -> gcd_loop (S f) a b = Some (abs a).
+Proof. intros H. cbn [gcd_loop]. now rewrite H. Qed.
+Lemma gcd_loop_step f a b z : int_of b = Some z -> z <> 0 ->
+  gcd_loop (S f) a b = match modulo a b with Ok m => gcd_loop f b m | e => Some e end.
+Proof. intros H Hz. cbn [gcd_loop]. rewrite H. destruct z; [congruence| |]; reflexivity. Qed.
+
+Lemma mod_abs_lt x d : d <> 0 -> Z.abs (x mod d) < Z.abs d.
+Proof.
+  intros Hd. destruct (Z_lt_le_dec 0 d).
+  - pose proof (Z.mod_pos_bound x d). lia.
+  - pose proof (Z.mod_neg_bound x d). lia.
+Qed.
+
+Lemma gcd_loop_spec : forall fuel a b, canonical a -> canonical b -> is_integer a -> is_integer b ->
+  (Z.to_nat (Z.abs (numer b)) < fuel)%nat ->
+  exists v, gcd_loop fuel a b = Some (Ok v) /\ canonical v /\ is_integer v /\
+            numer v = Z.gcd (numer a) (numer b).
+Proof.
+  induction fuel as [|f IH]; intros a b Ca Cb Ia Ib Hf; [lia|].
+  destruct (Z.eq_dec (numer b) 0) as [E|E].
+  - rewrite gcd_loop_zero by (rewrite (int_of_integer b Ib), E; reflexivity).
+    destruct (abs_integer a Ca Ia) as [v [Ev [Cv [Iv Nv]]]].
+    exists v. rewrite Ev. repeat split; auto. rewrite Nv, E, Z.gcd_0_r. reflexivity.
+  - rewrite (gcd_loop_step f a b (numer b)) by (auto using int_of_integer).
+    pose proof (modulo_spec a b Ca Cb Ia Ib) as M.
+    assert (Eb : (numer b =? 0) = false) by (apply Z.eqb_neq; auto). rewrite Eb in M.
+    destruct M as [m [Em [Cm [Im Nm]]]]. rewrite Em.
+    pose proof (mod_abs_lt (numer a) (numer b) E) as Hlt.
+    destruct (IH b m Cb Cm Ib Im) as [v [Ev [Cv [Iv Nv]]]]; [rewrite Nm; lia|].
+    exists v. repeat split; auto. rewrite Nv, Nm.
+    rewrite Z.gcd_comm, Z.gcd_mod by auto. apply Z.gcd_comm.
+Qed.
+
+Lemma exact_integer_sqrt_spec a : canonical a -> is_integer a -> 0 <= numer a ->
+  exists s r, exact_integer_sqrt a = Some (s, r) /\ canonical s /\ canonical r /\
+              numer s * numer s + numer r = numer a /\
+              numer s * numer s <= numer a < (numer s + 1) * (numer s + 1) /\ 0 <= numer s.
+Proof.
+  intros Ca Ia Hn. unfold exact_integer_sqrt. rewrite (int_of_integer a Ia).
+  destruct (numer a <? 0) eqn:E; [apply Z.ltb_lt in E; lia|].
+  set (n := numer a) in *. set (s := Z.sqrt n).
+  destruct (of_bigint_spec s) as [Cs [Ns _]]. destruct (of_bigint_spec (n - s * s)) as [Cr [Nr _]].
+  do 2 eexists. split; [reflexivity|]. rewrite Ns, Nr.
+  pose proof (Z.sqrt_spec n Hn) as S. pose proof (Z.sqrt_nonneg n). fold s in S.
+  repeat split; auto; unfold Z.succ in *; lia.
+Qed.
